@@ -73,6 +73,7 @@ type pType struct {
 	Assign bool        `json:"assign,omitempty"` // `type A = string`
 	Consts [][2]string `json:"consts,omitempty"` // enum: [name, literal]
 	Raw    string      `json:"raw,omitempty"`    // further declarations printed verbatim after this one
+	ConstsElsewhere int `json:"constsElsewhere,omitempty"` // enum: this many trailing constants are declared in a sibling file of the package
 }
 
 type pConfig struct {
@@ -95,6 +96,7 @@ type pProject struct {
 	Repeat      int           `json:"repeat,omitempty"` // C19: how many times the analysis is repeated on ONE pipeline
 	Determinism int           `json:"determinism,omitempty"` // C13: number of brand-new sessions whose bytes are compared
 	Echo        bool          `json:"echo,omitempty"`        // rig: controller methods record their arguments (package rigrec)
+	GroupParams bool          `json:"groupParams,omitempty"` // print consecutive same-typed parameters as one group: (a, b string, n int)
 }
 
 // ---- rendering
@@ -199,8 +201,20 @@ func writeProject(p pProject, dir string) (map[string]string, error) {
 			}
 			sb.WriteString("}\n")
 		case "enum":
+			here := t.Consts
+			if k := t.ConstsElsewhere; k > 0 && k < len(t.Consts) {
+				here = t.Consts[:len(t.Consts)-k]
+				var eb strings.Builder
+				eb.WriteString("const (\n")
+				for _, c := range t.Consts[len(t.Consts)-k:] {
+					eb.WriteString("\t" + c[0] + " " + t.Name + " = " + c[1] + "\n")
+				}
+				eb.WriteString(")\n")
+				ef := get(t.Pkg, "consts_"+strings.ToLower(t.Name)+".go")
+				ef.decls = append(ef.decls, eb.String())
+			}
 			sb.WriteString("type " + t.Name + " " + t.Base + "\n\nconst (\n")
-			for _, c := range t.Consts {
+			for _, c := range here {
 				sb.WriteString("\t" + c[0] + " " + t.Name + " = " + c[1] + "\n")
 			}
 			sb.WriteString(")\n")
@@ -235,7 +249,18 @@ func writeProject(p pProject, dir string) (map[string]string, error) {
 				mb.WriteString(ind + l + "\n")
 			}
 			ps := []string{}
-			for _, q := range m.Params {
+			for qi := 0; qi < len(m.Params); qi++ {
+				q := m.Params[qi]
+				if p.GroupParams {
+					// (a, b, c T): one ast.Field with several names
+					names := []string{q.Name}
+					for qi+1 < len(m.Params) && m.Params[qi+1].Type == q.Type {
+						qi++
+						names = append(names, m.Params[qi].Name)
+					}
+					ps = append(ps, strings.Join(names, ", ")+" "+q.Type)
+					continue
+				}
 				ps = append(ps, q.Name+" "+q.Type)
 			}
 			res := ""
